@@ -165,6 +165,7 @@ func run(c *core.Case, st *core.CaseStats, seed int64) {
 			for _, i := range want {
 				w.WriteString(cs[i])
 			}
+			core.Retain(st, c, "StrGenerator.Generate", in, got)
 			if got != w.String() || utf8.RuneCountInString(got) != n {
 				st.Add(core.Mismatch{Fn: c.Fn, Kind: "value", Case: c, Input: in, Expected: w.String(), Actual: got})
 			}
